@@ -949,6 +949,29 @@ vk_harness!(c19_direct_jump_still_works_with_errors, {
     jump_into_program_with_errors(2);
 });
 
+//@ prop: C19
+//@ tier: quick
+//@ unwind: 12
+//@ verbose: off
+//@ encodes: Runtime::execute; Runtime::execute_loop (Opcode::Jump gate on indirect errors)
+//@ bounds: program of one instruction with one recorded compile-time error; ONE step: the back jump of a direct loop whose target is the FIRST direct instruction (address == entry address, as the WEND of a direct WHILE does)
+vk_harness!(c19_direct_back_jump_to_the_first_direct_instruction_with_errors, {
+    let mut r = Runtime::default();
+    load_ops(&mut r, vec![Opcode::Literal(Val::Integer(1)), Opcode::Literal(Val::Integer(7)), Opcode::Jump(1), Opcode::End]);
+    r.entry_address = 1;
+    r.pc = 2;
+    r.state = State::Running;
+    let mut errs: Vec<Error> = Vec::new();
+    errs.push(error!(UndefinedLine, Some(vk::any_u16()), ..&(1..2)));
+    r.listing.indirect_errors = Arc::new(errs);
+    let ev = r.execute(1);
+    vk_check!(!matches!(&ev, Event::Errors(_)), "C19: a direct loop that never enters the program still works while the program has errors");
+    vk_check!(r.pc == 1 && code_of_state(&r.state) == 4, "C19: the back jump was taken and the direct statement keeps running");
+    vk_cover!(true, "reach: back jump to the first direct instruction");
+    core::mem::forget(r);
+    core::mem::forget(ev);
+});
+
 //@ prop: C17
 //@ tier: quick
 //@ unwind: 12
